@@ -239,9 +239,11 @@ func (x *Exec) leadRun(view StrVal, set [128]bool) *Term {
 	if !x.leadDone[k] {
 		x.leadDone[k] = true
 		i := o.BoundVar("i", o.IdxSort())
-		x.assume(o.And(o.IdxLe(o.Idx(0), k), o.IdxLe(k, view.Len)))
-		x.assume(o.Forall([]*Term{i}, o.Implies(o.And(o.IdxLe(o.Idx(0), i), o.IdxLt(i, k)), x.classTerm(set, o.Select(view.Arr, o.IdxAdd(view.Off, i))))))
-		x.assume(o.Implies(o.IdxLt(k, view.Len), o.Not(x.classTerm(set, o.SelByte(view.Arr, o.IdxAdd(view.Off, k))))))
+		// (for well-formed views only: see firstDiff)
+		wf := o.IdxLe(o.Idx(0), view.Len)
+		x.assumeClosed(o.Implies(wf, o.And(o.IdxLe(o.Idx(0), k), o.IdxLe(k, view.Len))))
+		x.assumeClosed(o.Implies(wf, o.Forall([]*Term{i}, o.Implies(o.And(o.IdxLe(o.Idx(0), i), o.IdxLt(i, k)), x.classTerm(set, o.Select(view.Arr, o.IdxAdd(view.Off, i)))))))
+		x.assumeClosed(o.Implies(o.And(wf, o.IdxLt(k, view.Len)), o.Not(x.classTerm(set, o.SelByte(view.Arr, o.IdxAdd(view.Off, k))))))
 	}
 	return k
 }
